@@ -72,9 +72,25 @@ def natural_failures(rng):
     v("max-temp-size-unparsable", env={"VTL_MAX_TEMP_DIRECTORY_SIZE": "lots"})
     v("bad-period-format", kwargs={"time_period_output_format": "martian"})
     v("bad-output-format", kwargs={"output_format": "xlsx"}, output_folder=True)
+    # failures in the fetch / file-writing phase, after every statement has run
+    v("output-folder-is-a-file", output_folder="is-a-file")
+    long_name = "Z_" + "x" * 250
+    v("result-file-name-too-long", script=base["script"] + "%s <- DS_1;\n" % long_name, output_folder=True)
     v("division-by-zero", script=base["script"] + "Z_9 <- DS_1 / 0;\n")
     v("semantic-error", script=base["script"] + "Z_9 <- DS_1 + DS_77;\n")
     v("syntax-error", script=base["script"] + "Z_9 <- DS_1 +;\n")
+    # a period that the requested output representation cannot express: fails while results are being fetched
+    tp = {"datasets": [{"name": "T_1", "DataStructure": [
+        {"name": "Id_1", "type": "Integer", "role": "Identifier", "nullable": False},
+        {"name": "Id_t", "type": "Time_Period", "role": "Identifier", "nullable": False},
+        {"name": "Me_1", "type": "Number", "role": "Measure", "nullable": True}]}]}
+    out.append({"api": "run", "script": "T_a <- T_1 * 2; T_b <- T_1[filter Me_1 > 0]; T_c := T_a + T_b;\n", "structures": tp,
+                "data": {"T_1": {"kind": "df", "columns": ["Id_1", "Id_t", "Me_1"], "rows": [[1, "2020Q1", 1.0], [2, "2020M03", 2.0], [3, "2021S2", None]]}},
+                "kwargs": {"time_period_output_format": "sdmx_gregorian"}, "env": {}, "output_folder": False, "natural": "period-not-renderable"})
+    out.append({"api": "run", "script": "T_a <- T_1 * 2; T_b <- T_1[filter Me_1 > 0];\n", "structures": tp,
+                "data": {"T_1": {"kind": "csv_text", "text": "Id_1,Id_t,Me_1\n1,2020Q1,1.0\n2,2020W07,2.0\n"}},
+                "kwargs": {"time_period_output_format": "sdmx_gregorian"}, "env": {"VTL_USE_IN_MEMORY_DB": "0"}, "output_folder": True,
+                "natural": "period-not-renderable-file-backed"})
     # duplicate identifiers in an input (load validation fails after the table exists)
     d = json.loads(json.dumps(base))
     name = sorted(d["data"])[0]
@@ -374,6 +390,8 @@ def _plain(op):
         kw.pop("time_period_output_format", None)
         kw.pop("output_format", None)
         o["kwargs"] = kw
+        if o.get("output_folder") == "is-a-file":
+            o["output_folder"] = True
     return o
 
 
